@@ -265,3 +265,20 @@ def keep_pos(xs):
 
 def version_string(major, minor):
     return "%d.%03d" % (major, minor)
+
+
+def head2(t):
+    a, b = t[0:2]
+    return a + b
+
+
+def max_or_zero(xs):
+    return max((x + 1 for x in xs), default=0)
+
+
+def full_name(a, b):
+    return "{}-{}".format(a, b)
+
+
+def padded(n):
+    return str(n).zfill(3)
